@@ -271,7 +271,12 @@ func c16Family(thorough bool) []*sysgen.Spec {
 							},
 							func(s *sysgen.Spec) bool { s.L3 = "package"; s.ClusterCores = 2; s.L2PerCluster = true; return c > 1 },
 							func(s *sysgen.Spec) bool { s.CoreIDPerDie = true; return d > 1 },
-							func(s *sysgen.Spec) bool { s.CoreIDPerDie = true; s.AdjacentHT = true; s.L3 = "die"; return d > 1 && t > 1 },
+							func(s *sysgen.Spec) bool {
+								s.CoreIDPerDie = true
+								s.AdjacentHT = true
+								s.L3 = "die"
+								return d > 1 && t > 1
+							},
 							func(s *sysgen.Spec) bool { s.L3 = "none"; return true },
 							func(s *sysgen.Spec) bool { s.NoCaches = true; return true },
 							func(s *sysgen.Spec) bool {
